@@ -101,6 +101,14 @@ Example tamper_audience_invalid_utf8 :
   token_ids_ok t = true /\ token_ids_ok t' = true /\ ex_verify t 7 = true /\ ex_verify t' 7 = true /\ u_aud t' <> u_aud t.
 Proof. cbv zeta. repeat split; try (vm_compute; reflexivity); vm_compute; discriminate. Qed.
 
+(* undecodable audience bytes all print as the empty DID string (the premise did_okb of token_ids_ok) *)
+Example tamper_audience_undecodable :
+  let t := ex_issue 7 (bs "0.9.1") [] [ex_cap] None (Some 100%Z) None None None in
+  let t' := mkU (u_v t) (u_iss t) [0; 1] (u_s t) (u_att t) (u_prf t) (u_exp t) (u_fct t) (u_nnc t) (u_nbf t) in
+  json_safe (payload_ipld t true) = true /\ json_safe (payload_ipld t' true) = true /\
+  token_ids_ok t = false /\ ex_verify t 7 = true /\ ex_verify t' 7 = true /\ u_aud t' <> u_aud t.
+Proof. cbv zeta. repeat split; try (vm_compute; reflexivity); vm_compute; discriminate. Qed.
+
 (* the tamper statement WITHOUT the json_safe premises is false (for this signature instance) *)
 Definition tamper_unrestricted : Prop :=
   forall t t' k,
